@@ -131,6 +131,20 @@ MUTANTS = [
  ('c18_reverse_cone_z_from_s', 'C18', 'src/solver/chordal/decomp/reverse_compact.rs', '                new_z[row_range.start + offset] = old_z[row_ptr + counter];', '                new_z[row_range.start + offset] = old_z[row_ptr + offset];'),
  ('c04_footer_like_duration_on_setting', 'C04', D + 'info_print.rs', '                format!("{:?}", set.time_limit)', '                format!("{:?}", Duration::from_secs_f64(set.time_limit).as_secs_f64())'),
  ('c14_pow_unit_init_copy_early', 'C14', R + 'core/cones/genpowcone.rs', '        s[dim1..].set(T::zero());\n\n        z.copy_from(s);', '        z.copy_from(s);\n        s[dim1..].set(T::zero());'),
+ ('c16_triu_strict', 'C16', 'src/algebra/csc/core.rs', 'rows.iter().filter(|&row| *row <= col).count();', 'rows.iter().filter(|&row| *row < col).count();'),
+ ('c16_triu_nzval_src_shifted', 'C16', 'src/algebra/csc/core.rs', '            nzval[fdest..ldest].copy_from_slice(&self.nzval[fsrc..lsrc]);', '            nzval[fdest..ldest].copy_from_slice(&self.nzval[fdest..ldest]);'),
+ ('c16_is_triu_ge', 'C16', 'src/algebra/csc/core.rs', '            if rows.iter().any(|&row| row > col) {', '            if rows.iter().any(|&row| row >= col) {'),
+ ('c16_index_to_coord_off', 'C16', 'src/algebra/csc/core.rs', '        let col = self.colptr.partition_point(|&c| idx + 1 > c) - 1;', '        let col = self.colptr.partition_point(|&c| idx > c) - 1;'),
+ ('c16_check_format_allows_duplicates', 'C16', 'src/algebra/csc/core.rs', 'if self.rowval[rng].windows(2).any(|c| c[0] >= c[1]) {', 'if self.rowval[rng].windows(2).any(|c| c[0] > c[1]) {'),
+ ('c16_check_format_row_le_m', 'C16', 'src/algebra/csc/core.rs', 'if !self.rowval.iter().all(|r| r < &self.m) {', 'if !self.rowval.iter().all(|r| r <= &self.m) {'),
+ ('c14_pow_newton_f1_slip', 'C14', R + 'core/cones/powcone.rs', '            (α * α * two) / (α * x + (T::one() + α) / s3)', '            (α * two) / (α * x + (T::one() + α) / s3)'),
+ ('c04_small_step_fail_no_status', 'C04', R + 'core/solver.rs', '            } else if α <= T::max(T::zero(), self.settings.core().min_terminate_step_length) {\n                self.info.set_status(SolverStatus::InsufficientProgress);', '            } else if α <= T::max(T::zero(), self.settings.core().min_terminate_step_length) {'),
+ ('c15_soc_root_always_minus', 'C15', R + 'core/cones/socone.rs', '            -b + T::sqrt(d)\n        }', '            -b - T::sqrt(d)\n        }'),
+ ('c20_print_to_file_keeps', 'C20', 'src/io/mod.rs', '    fn print_to_sink(&mut self) {\n        *self = PrintTarget::Sink(std::io::sink());', '    fn print_to_sink(&mut self) {\n        if !matches!(self, PrintTarget::Sink(_)) {\n            *self = PrintTarget::Sink(std::io::sink());\n        }'),
+ ('c13_soc_interior_ge', 'C13', R + 'core/cones/socone.rs', '    let res = _soc_residual(z);\n    if res > T::zero() {', '    let res = _soc_residual(z);\n    if res >= T::zero() {'),
+ ('c11_genpow_r_scaled_mu', 'C11', R + 'core/kktsolvers/direct/quasidef/datamaps.rs', '        scaleFcn(ldl, K, &map.r, -sqrtμ);', '        scaleFcn(ldl, K, &map.r, -data.μ);'),
+ ('c10_nn_rectify_uniform', 'C10', R + 'core/cones/nonnegativecone.rs', '    fn rectify_equilibration(&self, δ: &mut [T], _e: &[T]) -> bool {\n        δ.set(T::one());\n        false', '    fn rectify_equilibration(&self, δ: &mut [T], _e: &[T]) -> bool {\n        δ.copy_from(_e).recip().scale(_e.mean());\n        true'),
+ ('c18_complete_scatter_forward', 'C18', 'src/solver/chordal/decomp/psd_completion.rs', '    A.subsref(&W, &ip, &ip);', '    A.subsref(&W, p, p);'),
  ('c18_cones_stale', 'C18', D + 'problemdata.rs', '            cones_new.as_ref().unwrap_or(&cones),\n            settings,\n        );', '            &cones,\n            settings,\n        );'),
 ]
 
